@@ -784,7 +784,8 @@ def fam_ruby():
   return _file_family("F-ruby", prod.n, make, "ruby/rt shapes, with a styled annotation, inside a tag, with a tag in the base", geometry=False)
 
 
-CREFS = ["&amp;", "&lt;", "&gt;", "&nbsp;", "&lrm;", "&rlm;", "&#65;", "&#x42;", "&#8206;"]
+# the last three: a character outside the BMP as reference and literally, and a literal BMP symbol next to it
+CREFS = ["&amp;", "&lt;", "&gt;", "&nbsp;", "&lrm;", "&rlm;", "&#65;", "&#x42;", "&#8206;", "&#x1F600;", "\U0001F3B5", "\u266a"]
 CREF_CONTEXTS = ["x {a} y", "{a}{b} tail", "<b>{a}</b> z", "one{a}\n{b}two"]
 
 
